@@ -4,6 +4,7 @@ package props
 
 import (
 	"fmt"
+	"math"
 	"sort"
 
 	"github.com/creachadair/mds/slice"
@@ -23,10 +24,10 @@ func init() {
 				Flavours: []string{"plain", "cover"},
 				Blocks:   16,
 				Procs:    16,
-				Rule: "exhaustive enumeration: Partition: every keep/drop mask for n <= 16 (20 thorough), on exact-size slices and on windows of a larger guard-filled buffer; Rotate: every n <= 64 (160) and every k in [-n-2, n+2] plus far out-of-range k; Chunks/Batches: every len <= 40 (96) x every n in [-1, len+3], on windows with spare capacity; Head/Tail: every len <= 12 x n in [0, len+3]; Stripe: row-length vectors over {0..3}^<=4 x i in [0,4]; At/PtrAt: every len <= 12 x i in [-len-3, len+3]. " +
+				Rule: "exhaustive enumeration: Partition: every keep/drop mask for n <= 16 (20 thorough), on exact-size slices and on windows of a larger guard-filled buffer; Rotate: every n <= 400 (1300) and every k in [-n-2, n+2] plus far out-of-range k; every function with counts/offsets near the ends of the int range (MaxInt, MaxInt-1, 2^62, 2^31, MinInt); Chunks/Batches: every len <= 40 (96) x every n in [-1, len+3], on windows with spare capacity; Head/Tail: every len <= 12 x n in [0, len+3]; Stripe: row-length vectors over {0..3}^<=4 x i in [0,4]; At/PtrAt: every len <= 12 x i in [-len-3, len+3]. " +
 					"Oracles: stable filter + permutation + append-does-not-clobber for Partition; element i moves to (i+k) mod n and out-of-range k panics for Rotate; concatenation by address, documented lengths/counts, append-does-not-clobber-a-later-subslice, no panic for allowed arguments (incl. empty slice) for Chunks/Batches; direct indexing for the rest. " +
 					"distinct = enumerated argument tuples; non-trivial = the call had a non-empty slice argument",
-				Required:     []string{"partition_masks", "rotate_cases", "chunks_cases", "batches_cases", "batches_of_empty", "head_tail_cases", "stripe_cases", "at_ptrat_cases", "expected_panics_seen"},
+				Required:     []string{"partition_masks", "rotate_cases", "chunks_cases", "batches_cases", "batches_of_empty", "head_tail_cases", "stripe_cases", "at_ptrat_cases", "expected_panics_seen", "extreme_argument_cases"},
 				Exhaustive:   true,
 				Assumptions:  []string{"'capacity-clipped' is read as: appending to a returned subslice cannot overwrite an element outside it (so a single whole-input chunk may keep the input's capacity)"},
 				CoverPkgs:    []string{"github.com/creachadair/mds/slice"},
@@ -360,7 +361,7 @@ func runC17(c *fw.Ctx) {
 	}
 	idx += 100
 	// Rotate
-	maxR := c.Pick(64, 160)
+	maxR := c.Pick(400, 1300)
 	for n := c.Block; n <= maxR; n += c.NBlocks {
 		if c.Begin(idx + n) {
 			var cnt int64
@@ -399,6 +400,28 @@ func runC17(c *fw.Ctx) {
 				c.SeenEnum(2 * cnt)
 			}
 		}
+	}
+	idx += 100
+	// extreme arguments: chunk/batch counts and offsets near the ends of the int range
+	if c.Begin(idx + c.Block) {
+		var cnt int64
+		huge := []int{math.MaxInt, math.MaxInt - 1, math.MaxInt - 2, math.MaxInt - 7, math.MaxInt / 2, 1 << 62, 1 << 32, 1 << 31, 1<<31 - 1}
+		for ln := c.Block % 4; ln <= 12; ln += 4 {
+			for _, n := range huge {
+				c17chunksBatches(c, ln, n, false)
+				c17chunksBatches(c, ln, n, true)
+				c17headTail(c, ln, n)
+				c17at(c, ln, n)
+				c17at(c, ln, -n)
+				c17at(c, ln, math.MinInt)
+				c17rotate(c, ln, n)
+				c17rotate(c, ln, -n)
+				cnt += 8
+			}
+		}
+		c.Evals(cnt)
+		c.Add("extreme_argument_cases", cnt)
+		c.SeenEnum(cnt)
 	}
 	idx += 100
 	// Head/Tail, At/PtrAt
